@@ -119,7 +119,7 @@ def tasks(tier):
                                                                            task_timeout_s=300)))
         if tier == 'quick' and name in HEAVY:
             continue        # terms of these kernels need minutes: thorough tier only (not under contract in the quick tier)
-        ts.append(Task(name, mk_task(name, qual), extra=dict(indic.CFG_EXTRA, bounded=f'series length N={N_FULL}, prefixes {PREFIXES}', task_timeout_s=(60 if tier == 'quick' else 600)),
+        ts.append(Task(name, mk_task(name, qual), extra=dict(indic.CFG_EXTRA, bounded=f'series length N={N_FULL}, prefixes {PREFIXES}', task_timeout_s=(300 if tier == 'quick' else 1200)),
                        overrides=dict(ov), max_paths=64, prove_timeout_ms=20000))
 
     def mustfail(h):
